@@ -54,9 +54,15 @@ class HasControlledBy:
         to be called from the write_target method
         """
         if self.controlled_by:
+            previous = self.controlled_by
             self.controlled_by = 0  # self
-            for deactivate_control in self.inputCallbacks.values():
-                deactivate_control(self.name)
+            try:
+                for deactivate_control in self.inputCallbacks.values():
+                    deactivate_control(self.name)
+            except Exception:
+                # the controller could not be switched off: it is still the one in control
+                self.controlled_by = previous
+                raise
 
     def update_target(self, module, value):
         """update internal target value
